@@ -26,9 +26,11 @@ class LexError(Exception):
     pass
 
 
-def lex_sets(ip, bs):
-    """A small PostgreSQL lexer for a sequence of `SET name TO 'literal';` statements (standard_conforming_strings = on:
-    '' is an embedded quote, backslash is an ordinary character).  Control flow on symbolic bytes forks.  Returns
+def lex_sets(ip, bs, scs='on'):
+    """A small PostgreSQL lexer for a sequence of `SET name TO 'literal';` statements.  '' is an embedded quote.  In a plain literal a backslash
+    is an ordinary character when the connection's standard_conforming_strings is on and an escape character when it is off; in an E'...'
+    literal it is an escape character either way (\\\\ -> backslash, \\' -> quote, backslash + any other character of the alphabet used here -> that character).
+    The whole Query string is lexed under the setting in force when it arrives.  Control flow on symbolic bytes forks.  Returns
     [(name_bytes, value_bytes)] or raises LexError at the first thing PostgreSQL would not read as such a statement."""
     i = 0
     n = len(bs)
@@ -80,6 +82,10 @@ def lex_sets(ip, bs):
         skip_ws()
         expect_word('TO')
         skip_ws()
+        esc = scs == 'off'
+        if i + 1 < n and (is_(i, 'E') or is_(i, 'e')) and is_(i + 1, "'"):
+            esc = True
+            i += 1
         if i >= n or not is_(i, "'"):
             raise LexError('expected string literal')
         i += 1
@@ -87,6 +93,12 @@ def lex_sets(ip, bs):
         while True:
             if i >= n:
                 raise LexError('unterminated string literal')
+            if esc and is_(i, '\\'):
+                if i + 1 >= n:
+                    raise LexError('unterminated string literal')
+                val.append(bs[i + 1])
+                i += 2
+                continue
             if is_(i, "'"):
                 if i + 1 < n and is_(i + 1, "'"):
                     val.append(bs[i])
@@ -104,7 +116,7 @@ def lex_sets(ip, bs):
 
 
 @expectation('c12_sync')
-def c12_sync(expected_assignments):
+def c12_sync(expected_assignments, scs='on'):
     """Native replay: lex the SQL the compiled Server::sync_parameters wrote (concretely, same lexer rules) and compare."""
     def f(res):
         r = res[0]
@@ -115,7 +127,7 @@ def c12_sync(expected_assignments):
         if w:
             sql = w[5:-1] if w[:1] == b'Q' else w
         try:
-            got = sorted(conc_lex(sql))
+            got = sorted(conc_lex(sql, scs))
         except ValueError as e:
             return True, 'SQL sent %r is not a sequence of SET name TO literal; statements: %s' % (sql, e)
         want = sorted((k, v) for k, v in expected_assignments)
@@ -123,7 +135,7 @@ def c12_sync(expected_assignments):
     return f
 
 
-def conc_lex(sql):
+def conc_lex(sql, scs='on'):
     s = sql.decode('latin1')
     i = 0
     out = []
@@ -133,15 +145,22 @@ def conc_lex(sql):
             i += 1
         if i >= n:
             return out
-        m = re.match(r'(?i)SET +([A-Za-z0-9_]+) +TO +\'', s[i:])
+        m = re.match(r'(?i)SET +([A-Za-z0-9_]+) +TO +(E?)\'', s[i:])
         if not m:
             raise ValueError('unexpected text at offset %d' % i)
         name = m.group(1)
+        esc = bool(m.group(2)) or scs == 'off'
         i += m.end()
         val = ''
         while True:
             if i >= n:
                 raise ValueError('unterminated literal')
+            if esc and s[i] == '\\':
+                if i + 1 >= n:
+                    raise ValueError('unterminated literal')
+                val += s[i + 1]
+                i += 2
+                continue
             if s[i] == "'":
                 if i + 1 < n and s[i + 1] == "'":
                     val += "'"
@@ -159,27 +178,31 @@ def conc_lex(sql):
         out.append([name, val])
 
 
-def o1_sync(chk, prog, lens, server_lens=None):
+def o1_sync(chk, prog, lens, server_lens=None, scs='on'):
     """lens: dict key -> client value length (symbolic value); server_lens: dict key -> length of a symbolic value the
     server connection currently has (default: the pooler defaults)."""
     server_lens = server_lens or {}
     name = 'O1-sync-' + '_'.join('%s%d' % (k[:4], v) for k, v in sorted(lens.items())) + \
         ('-srv-' + '_'.join('%s%d' % (k[:4], v) for k, v in sorted(server_lens.items())) if server_lens else '')
+    if scs != 'on':
+        name += '-scs_' + scs
     ob = chk.begin(name, 'Server::sync_parameters: client values of %r are symbolic strings over the alphabet {quote, backslash, space, ;, a, '
                    'double quote}; the SQL sent, lexed as PostgreSQL would, assigns exactly the client values of the differing tracked '
-                   'parameters and nothing else; nothing is sent when nothing differs' % (sorted(lens),), {'symbolic_values': lens, 'alphabet': "'\\\\ ;a\""})
+                   'parameters and nothing else; nothing is sent when nothing differs; standard_conforming_strings on this connection (and wanted by this client): %s' % (sorted(lens), scs), {'symbolic_values': lens, 'alphabet': "'\\\\ ;a\"", 'standard_conforming_strings': scs})
     sp = fn(prog, 'Server::sync_parameters')
     ip = chk.interp(prog, name)
     install_stats_noops(ip)
 
     def harness(ip_):
         cvals = dict(DEFAULTS)
+        cvals['standard_conforming_strings'] = scs
         sym = {}
         for k, ln in lens.items():
             sym[k] = sym_value(ip_, ln, k[:3])
             cvals[k] = Seq(list(sym[k]), 'string')
         client = mk_server_params(prog, cvals)
         svals = dict(DEFAULTS)
+        svals['standard_conforming_strings'] = scs
         ssym = {}
         for k, ln in server_lens.items():
             ssym[k] = sym_value(ip_, ln, 's' + k[:3])
@@ -214,9 +237,9 @@ def o1_sync(chk, prog, lens, server_lens=None):
             sparams = {k: bytes(m.eval(b.z(), True).as_long() for b in v).decode('latin1') for k, v in ssym.items()}
             want = [[k, params[k]] for k in differing]
             chk.report(ob, key, what + ' (client values %r, server values %r)' % (params, sparams), {'client_params': params, 'server_params': sparams},
-                       {'commands': [{'op': 'server_script', 'pre': {'server_params': sparams}, 'inbound_hex': bytes(b.v for b in reply).hex(),
-                                      'steps': [{'do': 'sync_parameters', 'params': dict(DEFAULTS, **params)}]}],
-                        'expect': ['c12_sync', want]})
+                       {'commands': [{'op': 'server_script', 'pre': {'server_params': dict(sparams, standard_conforming_strings=scs)}, 'inbound_hex': bytes(b.v for b in reply).hex(),
+                                      'steps': [{'do': 'sync_parameters', 'params': dict(DEFAULTS, standard_conforming_strings=scs, **params)}]}],
+                        'expect': ['c12_sync', want, scs]})
         if not differing:
             if out:
                 rep('C12/O1/sql-when-nothing-differs', 'sync_parameters sends SQL although no tracked parameter differs')
@@ -226,9 +249,9 @@ def o1_sync(chk, prog, lens, server_lens=None):
             return
         sql = out[5:-1]
         try:
-            assigns = lex_sets(ip_, sql)
+            assigns = lex_sets(ip_, sql, scs)
         except LexError as e:
-            rep('C12/O1/malformed-sql', 'the SQL built from the client values is not a sequence of SET name TO literal; statements (%s)' % e)
+            rep('C12/O1/malformed-sql' + ('' if scs == 'on' else '/scs-off'), 'the SQL built from the client values is not a sequence of SET name TO literal; statements (%s)' % e)
             return
         # compare as multisets
         got = []
@@ -241,7 +264,7 @@ def o1_sync(chk, prog, lens, server_lens=None):
                 if ip_.model_for(z3.Not(seq_equal(val, sym[nm]))) is not None:
                     okk = False
         if not okk:
-            rep('C12/O1/wrong-assignment', 'the SQL assigns something other than the client values')
+            rep('C12/O1/wrong-assignment' + ('' if scs == 'on' else '/scs-off'), 'the SQL assigns something other than the client values')
         if len(ob.samples) < 3:
             m = ip_.model_for()
             ob.samples.append({'sql': bytes(m.eval(b.z(), True).as_long() for b in sql).decode('latin1')})
@@ -439,6 +462,10 @@ def main(chk):
     tasks.append((o1_sync, (prog, {'TimeZone': 1, 'application_name': 1})))
     tasks.append((o1_sync, (prog, {'application_name': 1}, {'application_name': 1})))
     tasks.append((o1_sync_refused, (prog,)))
+    # a connection whose standard_conforming_strings is OFF (a tracked parameter: a legacy client sets it, and the connection keeps it until the
+    # next client's batch -- which is lexed under the OLD setting): backslash is an escape character there
+    for n in (1, 2):
+        tasks.append((o1_sync, (prog, {'application_name': n}, None, 'off')))
     tasks.append((o1_sync, (prog, {'application_name': 2}, {'application_name': 2})))
     tasks.append((o1_sync, (prog, {'application_name': 5})) if False else (o1_sync, (prog, {'DateStyle': 2})))
     for k in KEYS:
